@@ -14,7 +14,7 @@ import tie
 
 # per property: generator profiles, decisive directions, tags consumed by the theorem, spec clause prefixes
 CONFIG = {
-    'C01': dict(profiles=['tasks', 'mixed'], fwd_tags=['task', 'horizon', 'problem'], bwd=False, o1=False,
+    'C01': dict(profiles=['tasks', 'mixed', 'fol'], fwd_tags=['task', 'horizon', 'problem'], bwd=False, o1=False,
                 spec=['C01/'], n=(160, 3000)),
     'C02': dict(profiles=['resources', 'resources', 'late', 'mixed'], fwd_tags=['task', 'overlap', 'work'], bwd=False, o1=False,
                 spec=['C02/'], n=(180, 3000)),
@@ -461,6 +461,10 @@ def run(ctx, replay=None):
                 'what_it_means': 'the values reported to the user differ from the values of the schedule the solver found (as Solution.v builds them)'})
             common.violation(ctx, path)
         cov['reported_values_slice'] = {'programs': len(sl), **sstats, 'breaks': len(sbreaks)}
+    # ---- translator tie: the helper functions of util.py this property rests on, regenerated from /repo's source ----
+    import srctie
+    if ctx.prop in srctie.BY_PROP and replay is None:
+        cov['source_translation'] = srctie.run(ctx)
     cov.update(evidence_cov)
     common.write_evidence(ctx, 'proof', cov, [
         'the theorem is about the Coq model; the model is tied to /repo only on the sampled programs (per program the comparison is exact, by z3)',
